@@ -3573,6 +3573,19 @@ impl Zeroconf {
             // If there is already a `listener`, it will be updated, i.e. overwritten.
             self.service_queriers.insert(ty.clone(), listener.clone());
 
+            // Browsing again replaces the earlier search: drop its pending
+            // retransmission so that only one query schedule runs per `ty`.
+            let mut i = 0;
+            while i < self.retransmissions.len() {
+                if let Command::Browse(t, _, _, _) = &self.retransmissions[i].command {
+                    if t == &ty {
+                        self.retransmissions.remove(i);
+                        continue;
+                    }
+                }
+                i += 1;
+            }
+
             // if we already have the records in our cache, just send them
             self.query_cache_for_service(&ty, &listener, now);
         }
